@@ -84,6 +84,11 @@ def check(ctx):
                "reorder(): lookups and removals that can fail operate on copies; the live list is replaced once, after them", floor=1)
     ctx.guarded(o, lambda o: reorder_rule(ctx, o))
 
+    o = ctx.ob('sort_works_on_a_copy', 'R12',
+               "sort(): the ordering (whose key function / comparisons can fail on incomparable values) is computed on a copy by sorted(); "
+               "the shared list is replaced only afterwards, in one step", floor=1)
+    ctx.guarded(o, lambda o: sort_rule(ctx, o))
+
     for q in MUTATORS:
         short = q.split('.', 1)[1]
         o = ctx.ob(f'order[{short}]', 'R12', f"{short}: no raising event is reachable after the first write of relation state (modulo E1-E3)", floor=1)
@@ -680,6 +685,30 @@ def _negative_index(ctx, f, i, idx_p, at):
     if any(isinstance(x, ast.Call) and isinstance(x.func, ast.Name) and x.func.id in ('max', 'min') for x in ast.walk(i)):
         return "index clamped before the attach"
     return "index used as given, before the attach (a failing lookup changes nothing)"
+
+
+def sort_rule(ctx, o):
+    prog = ctx.prog
+    f = prog.func('task._ChildrenList.sort')
+    ex = Expander(prog, f, ctx.typer, inline=True)
+    cfg = cfg_of(f)
+    found = False
+    for n in walk_no_nested(f.node):
+        if isinstance(n, ast.Call) and isinstance(n.func, ast.Attribute) and n.func.attr == 'sort':
+            recv = ex.expand(n.func.value, cfg.node_containing(n))
+            if match("self._list", recv) or match("self._ChildrenList__parent._Task__children", recv):
+                found = True
+                o.refute(f, n, n, "sort() orders the shared child list in place with list.sort(): when a comparison fails half way (TypeError on "
+                                  "values that cannot be compared, e.g. None) the children are left partially reordered")
+    for st, val, inplace in T.list_replacements(f):
+        found = True
+        vx = ex.expand(val, cfg.node_of(st))
+        if isinstance(vx, ast.Call) and isinstance(vx.func, ast.Name) and vx.func.id == 'sorted' and vx.args:
+            o.site(f, st, "the list is replaced by sorted(..) of it: a failing comparison leaves it untouched")
+        else:
+            o.site(f, st, "the list is replaced in one step")
+    if not found:
+        o.undecided(f, f.node, 'sort', "sort() neither replaces the list nor sorts it in place")
 
 
 def reorder_rule(ctx, o):
